@@ -90,6 +90,13 @@ func main() {
 		}()
 		env := rules.NewEnv(run)
 		rules.RunSpec(env, *prop, spec)
+		var also []string
+		if *tier == "thorough" {
+			also = rules.ThoroughTargets(*prop)
+		}
+		if *prop != "C19" { // C19 analyses every target anyway
+			rules.RunOtherFileSets(env, *prop, spec, also)
+		}
 		if *tier == "thorough" {
 			rules.Thorough(env, *prop, spec)
 		}
